@@ -317,6 +317,13 @@ def trees(spec, rng, counters, digests, violations, samples):
         readable = [l for l in locs if l["group"] == "leaf"] + [l for l in locs if l["group"] in ("n", "l", "o")]
         term = tg.deferred_term(readable, rng.randrange(2, 7))
         try:
+            sh.eval(term)       # guarded dry run (a tower of powers would never return)
+        except Discard:
+            counters["trees_skipped_too_big"] = counters.get("trees_skipped_too_big", 0) + 1
+            continue
+        except Exception:
+            pass
+        try:
             expr = ls.runner.build(term)
         except Exception as exc:
             # building evaluates literal-only sub-terms: Python itself must raise the same
